@@ -37,6 +37,9 @@ pub struct LoadStats {
     /// a build file changed between being read and the tree state being taken:
     /// the tree state does not describe what was parsed
     pub changed_while_loading: bool,
+    /// files that were looked for and not found (lazefile candidates of imports that
+    /// take precedence over the one that was loaded): the result depends on their absence
+    pub absent_files: Vec<std::path::PathBuf>,
 }
 
 /// what `treestate` compares: length and modification time (None if the file is gone)
@@ -441,6 +444,9 @@ pub fn load(
     // length/mtime of every file as it was just before it was read
     let mut stamps_before_read = Vec::new();
 
+    // files whose absence decided what was loaded
+    let mut absent_files = Vec::new();
+
     let mut filenames_pos = 0;
     while filenames_pos < filenames.len() {
         let include = filenames.get_index(filenames_pos).unwrap();
@@ -474,10 +480,13 @@ pub fn load(
                     // TODO: `import.handle()` does the actual git checkout (or whatever
                     // import action), so probably better handling of any errors is
                     // in order.
-                    filenames.insert(FileInclude::new_import(
-                        import.handle(build_dir)?,
-                        new.doc_idx,
-                    ));
+                    let lazefile = import.handle(build_dir)?;
+                    absent_files.extend(
+                        import::preferred_over(&lazefile)
+                            .into_iter()
+                            .map(Utf8PathBuf::into_std_path_buf),
+                    );
+                    filenames.insert(FileInclude::new_import(lazefile, new.doc_idx));
                 }
             }
             if let Some(includes) = &new.includes {
@@ -1108,6 +1117,7 @@ pub fn load(
         stat_time,
         files: filenames.len(),
         changed_while_loading,
+        absent_files,
     };
     Ok((contexts, treestate, stats))
 }
